@@ -235,9 +235,44 @@ def call(f):
 # ----------------------------------------------------------------------------------------------
 # executing a self-contained case on the real code
 
+import warnings as _w
+_w.filterwarnings("ignore", message="Contraction cache disabled")
+
+OPT_CHOICES = {
+    "optimize": ["greedy", "optimal", "auto-hq", "random-greedy", "eager", "explicit-path"],
+    "cache_expression": [False],
+    "sort_contraction_indices": [True],
+    "prefer_einsum": [True],
+    "implementation": ["cotengra", "autoray"],
+    "backend": ["numpy"],
+    "via": ["identity"],
+}
+
+
+def draw_opts(rng):
+    """Execution / planning options of the front end: the value must not depend on any of them."""
+    if rng.random() < 0.45:
+        return {}
+    return {k: rng.choice(OPT_CHOICES[k]) for k in rng.sample(sorted(OPT_CHOICES), rng.choice([1, 1, 2, 3]))}
+
+
+def _kw(case, nops):
+    kw = dict(case.get("opts") or {})
+    if kw.get("via") == "identity":
+        # `via=(convert_in, convert_out)`: a pair of callables applied to the operands / the result
+        kw["via"] = (np.asarray, np.asarray)
+    if kw.get("optimize") == "explicit-path":
+        # an explicit linear path: always contract the first two remaining operands
+        kw["optimize"] = tuple((0, 1) for _ in range(max(nops - 1, 0)))
+        if nops < 2:
+            kw.pop("optimize")
+    return kw
+
+
 def run_real(case):
     """(ok, detail).  ok=True also when numpy itself rejects the call (nothing to compare)."""
     kind = case["kind"]
+    kw = _kw(case, len(case["shapes"]))
     arrays = [np.array(d, dtype=np.int64).reshape(s) for d, s in zip(case["data"], case["shapes"])]
     if kind == "einsum-str":
         args = (case["eq"], *arrays)
@@ -253,11 +288,11 @@ def run_real(case):
         if not ok_r:
             return True, "reference rejects"
         if kind == "ncon":
-            ok_v, val = call(lambda: ctg.ncon(arrays, [list(t) for t in case["indices"]]))
+            ok_v, val = call(lambda: ctg.ncon(arrays, [list(t) for t in case["indices"]], **kw))
         else:
             labels = [[decode_label(v) for v in t] for t in case["inputs"]]
             out = None if case["output"] is None else [decode_label(v) for v in case["output"]]
-            ok_v, val = call(lambda: ctg.array_contract(arrays, labels, out))
+            ok_v, val = call(lambda: ctg.array_contract(arrays, labels, out, **kw))
         if not ok_v:
             return False, f"{type(val).__name__}: {val}"
         return (True, "") if same(val, ref) else (False, f"wrong value/shape: got shape {np.shape(val)}, want {ref.shape}")
@@ -266,7 +301,7 @@ def run_real(case):
     ok_r, ref = call(lambda: np.einsum(*args))
     if not ok_r:
         return True, "numpy rejects"
-    ok_v, val = call(lambda: ctg.einsum(*args))
+    ok_v, val = call(lambda: ctg.einsum(*args, **kw))
     if not ok_v:
         return False, f"{type(val).__name__}: {val}"
     return (True, "") if same(val, ref) else (False, f"wrong value/shape: got shape {np.shape(val)}, want {ref.shape}")
@@ -336,6 +371,18 @@ def stream_einsum(ctx, drv, st, n):
             ctx.violation({"site": "einsum", "form": cls}, case, f"cotengra.einsum({eq!r}, ...) vs numpy: {detail}")
         else:
             tie_parse(ctx, drv, st, eq, form["shapes"])
+        # 1b. the same call with planning / execution options: the value does not depend on them
+        if ok and ctx.rng.random() < 0.35:
+            opts = draw_opts(ctx.rng)
+            if opts:
+                case = dict(base, kind="einsum-str", eq=eq, opts=opts)
+                ctx.case(case, nontrivial=nontrivial, sample=False)
+                for k_, v_ in opts.items():
+                    ctx.count("option:%s=%s" % (k_, v_))
+                ok2, detail = run_real(case)
+                if not ok2:
+                    ctx.violation({"site": "einsum", "form": "options", "opts": sorted(opts)}, case,
+                                  f"cotengra.einsum({eq!r}, ..., **{opts}) vs numpy: {detail}")
         # 2. with spaces
         if ctx.rng.random() < 0.25:
             eqs = eq_of(form, ctx.rng)
@@ -448,6 +495,10 @@ def stream_array_contract(ctx, drv, st, n):
                 "output": None if output is None else [encode_label(labels[i]) for i in output], "ref_eq": ref_eq}
         ctx.case(case, nontrivial=nops >= 2 and (output is None and len(ref_out) >= 2 or nops >= 3), sample=False)
         ctx.count("array_contract:" + ("implicit" if output is None else "explicit") + ":%d" % nops)
+        if ctx.rng.random() < 0.3:
+            case["opts"] = draw_opts(ctx.rng)
+            for k_, v_ in case["opts"].items():
+                ctx.count("option:%s=%s" % (k_, v_))
         ok, detail = run_real(case)
         if not ok:
             ctx.violation({"site": "array_contract", "form": "implicit" if output is None else "explicit"}, case,
@@ -521,6 +572,10 @@ def stream_ncon(ctx, drv, st, n):
         ref_eq = ",".join("".join(lm[s] for s in t) for t in indices) + "->" + "".join(lm[-(k + 1)] for k in range(nout))
         case = {"kind": "ncon", "shapes": shapes, "data": [[int(v) for v in x.ravel()] for x in arrays],
                 "indices": indices, "ref_eq": ref_eq}
+        if ctx.rng.random() < 0.3:
+            case["opts"] = draw_opts(ctx.rng)
+            for k_, v_ in case["opts"].items():
+                ctx.count("option:%s=%s" % (k_, v_))
         rep_neg = any(slots.count(-(k + 1)) > 1 for k in range(nout))
         rep_neg_same = any(t.count(s) > 1 for t in indices for s in t if s < 0)
         ctx.case(case, nontrivial=(nout >= 2 and nops >= 2) or rep_neg, sample=False)
